@@ -531,6 +531,13 @@ def rejection_probes(case, rng):
 
     must_reject(lambda: Molecules(np.zeros((0, 3)), Rotation.random(n, random_state=2)),
                 "no positions but several rotations", consistent=_agree)
+    def _rows_agree(mo):
+        return mo.pos.shape[0] == len(mo.rotator) == len(mo) and (mo.features.shape[1] == 0 or len(mo.features) == len(mo))
+
+    must_reject(lambda: Molecules(pos).with_features(pl.lit(7).alias("tag")),
+                "scalar literal as the first feature of a table (broadcast or rejected, never one row)", consistent=_rows_agree)
+    must_reject(lambda: Molecules(pos).with_features(pl.Series("tag", list(range(n + 2)))),
+                "first feature column of the wrong length", consistent=_rows_agree)
     must_reject(lambda: Molecules(np.zeros((0, 3)), features={"q": list(range(n))}),
                 "no positions but several feature rows", consistent=_agree)
     m = Molecules(pos, features={"uid": list(range(n))})
